@@ -53,7 +53,8 @@ size_t gclmulchunker::next_cut(const py::buffer& buffer, bool final = false) {
             return size / 2;
         else
             return max_length;
-    } else if (!final && size < max_length)
+    } else if (!final && size < ((max_length + 3) & -4))
+        // Every window below ends within the first (max_length + 3) & -4 bytes
         return 0;
 
     for (i = 4; i < max_length; i += 4) {
